@@ -27,8 +27,8 @@ P = {
          "multiply, transpose_multiply, transpose().multiply and scaled variants equal the dense products exactly over Rat (and on integer f64 data), within 4*nnz*u*sum|a||x| on general f64 data; <y,Ax>=<A^T y,x> through library results.",
          "Trusted: dense model from the same entry map; double-double reference.", "5/C07"),
  "C08": ("runtime monitor of the implication 'Ok => solved': every Ok outcome of the five solver variants on generated systems of all kinds is re-judged with a double-double true residual from a dense copy; budget replay at the client boundary yields the iterates for the drift term; determinism and zero-budget metamorphic checks",
-         "Whenever a solver answers Ok(it): it<=max_iter, x finite, true relative residual <= tol + drift allowance (256 units, QMR 16384 units of u*(it+1)*(||A||_F*max_k||x_k||+||b||)/||b||*). Zero budget leaves x bit-identical; repeated calls are bit-identical.",
-         "Trusted: dense copy + double-double residual; drift constants calibrated on 3.6 M outcomes (worst 2.3 / QMR 58).", "5/C08"),
+         "Whenever a solver answers Ok(it): it<=max_iter, x finite, true relative residual <= tol + drift allowance (256 units, QMR 64 units of u*(it+1)*(||A||_F*max_k||x_k||+||b||)/||b||*). Zero budget leaves x bit-identical; repeated calls are bit-identical.",
+         "Trusted: dense copy + double-double residual; drift constants calibrated on 3.6 M outcomes (worst 2.3; QMR 0.03 since its success is confirmed on the true residual, fix ab4c52c).", "5/C08"),
  "C09": ("runtime monitor on certified well-posed systems (strict diagonal dominance certificates computed from the entries): convergence within a dimension-proportional budget, agreement with the dense direct solver, degenerate starts on exactly representable data",
          "On SPD/strictly dominant systems every applicable solver must answer Ok within 10n+100 iterations and agree with Matrix::solve_basic within kappa_F*(tol+drift); an exact initial guess and (b=0,x0=0) must be accepted with x finite and still a solution.",
          "QMR demanded for tol>=1e-8 only (attainable-accuracy floor of the algorithm); isolated Lanczos breakdowns (not reproducing on 2 of 3 fresh rhs) are logged, not flagged; initial guesses at the scale of the solution.", "5/C09"),
@@ -106,7 +106,7 @@ def main():
              "kind_free_text": "Python wrapper: rebuilds the harness from /repo's working tree, runs the monitor(s) and sanitizer stages, applies known_findings.json, writes evidence, prints VIOLATION/KNOWN-FINDING/INCONCLUSIVE lines"},
         ],
         "checks": checks,
-        "notes": "Technique family: runtime monitoring and sanitizers. Exit codes: 0 held on what was observed, 1 VIOLATION, 2 INCONCLUSIVE (never mapped to violation). Known findings: known_findings.json. The level texts give the core of each workload; the input classes and oracles added after the three rounds of seeded changes and the mutation sweep (scaling invariance, live-object and after-shrink histories, aliasing, oversubscribed callers, constructed dividends, offset grids, ...) are listed in DESIGN.md sections 10 and 12 and in the `rule` text of every evidence file. Calibration of detection power: 120 seeded changes (seeded/), 28 hand-written mutants (tools/mutants.py), automatic mutation sweep (tools/mutsweep.py, mutation/results.jsonl).",
+        "notes": "Technique family: runtime monitoring and sanitizers. Exit codes: 0 held on what was observed, 1 VIOLATION, 2 INCONCLUSIVE (never mapped to violation). Known findings: known_findings.json. The level texts give the core of each workload; the input classes and oracles added after the five rounds of seeded changes and the mutation sweep (scaling invariance, live-object and after-shrink histories, aliasing, oversubscribed callers, constructed dividends, offset grids, ...) are listed in DESIGN.md sections 10 and 12 and in the `rule` text of every evidence file. Calibration of detection power: 200 seeded changes in five rounds (seeded/; blind detection rates in DESIGN.md section 10), 28 hand-written mutants (tools/mutants.py), automatic mutation sweep (tools/mutsweep.py, mutation/results.jsonl).",
         "not_applicable": na,
     }
     with open(os.path.join(ROOT, "MANIFEST.json"), "w") as f:
